@@ -662,7 +662,7 @@ def s6(chk: Check, proj: Project, w) -> None:
 
 
 MANIFEST = {
-    "text": "Decides the structural obligations of context scoping: the isolation gate covers `only` and ISOLATED and is the reaching definition of the context handed to the component; the isolated copy may only receive one copied forloop layer, the component key and inject-prefixed keys (who-may-write rule, no layer by reference); every statement-form push on a Context stack is popped on every normal path; fill-context selection is exhaustive over the ContextBehavior enum; every context kept for deferred rendering is a snapshot; snapshot_context's copy loops do not reuse each other's variables and walk into their copies. Also: snapshot aliasing (no writable layer shared with the live context), forloop copies walk the parentloop chain (sibling agreement), one source of truth for the mode, the dynamic component forwards its own isolated input context, Context layers pushed in statement form are popped on exceptional paths (shared with C06). Round 4: layer frame of fill variables (data layer always pushed, marker layer captured inclusively, capture loop never cut short, position correction unconditional); the behaviour dispatch is decided on path conditions. Round 5: a capture model of FillNode._extract_fill (every loop over the Context layers with its domain, direction and per-store path conditions) decides ordered single-pass capture, marker-inclusive capture, completeness and loop state from all layers; the isolated copy receives no whole layer / mapping; the dynamic component's target gets a snapshot of the outer context; known findings F41 (outer loop layers over nearer bindings) and F42 (`only` in django mode).",
+    "text": "Decides the structural obligations of context scoping: the isolation gate covers `only` and ISOLATED and is the reaching definition of the context handed to the component; the isolated copy may only receive one copied forloop layer, the component key and inject-prefixed keys (who-may-write rule, no layer by reference); every statement-form push on a Context stack is popped on every normal path; fill-context selection is exhaustive over the ContextBehavior enum; every context kept for deferred rendering is a snapshot; snapshot_context's copy loops do not reuse each other's variables and walk into their copies. Also: snapshot aliasing (no writable layer shared with the live context), forloop copies walk the parentloop chain (sibling agreement), one source of truth for the mode, the dynamic component forwards its own isolated input context, Context layers pushed in statement form are popped on exceptional paths (shared with C06). Round 4: layer frame of fill variables (data layer always pushed, marker layer captured inclusively, capture loop never cut short, position correction unconditional); the behaviour dispatch is decided on path conditions. Round 5: a capture model of FillNode._extract_fill (every loop over the Context layers with its domain, direction and per-store path conditions) decides ordered single-pass capture, marker-inclusive capture, completeness and loop state from all layers; the isolated copy receives no whole layer / mapping; the dynamic component's target gets a snapshot of the outer context; known findings F41 (outer loop layers over nearer bindings) and F42 (`only` in django mode). Round 7: the render function places the captured layer right under the top layer when the fill is rendered in the context from outside the component (F51); position rules follow local indirection.",
     "note": "Trusted: Django's Context.update/push in `with` pop on exit and ContextDict copies. Not decided: the non-interference statement itself; shadowing order between layers in django mode (three existing deviations observed by a seeding agent are value-level and out of reach).",
     "technique": "static reaching-definition / control-dependence checks, who-may-write rule, stack-effect analysis over the CFG, enum exhaustiveness",
 }
